@@ -8,6 +8,7 @@ import SnesVerif.Map.Spec
 import SnesVerif.Bus.Model
 import SnesVerif.Rom.BusIO
 import SnesVerif.Rom.Header
+import SnesVerif.Asm.Model
 
 def hexNat? (s : String) : Option Nat :=
   if s.isEmpty then none else
@@ -230,9 +231,124 @@ def run (ws : List String) : String :=
   | _ => "bad-op"
 end HdrDrv
 
+/-! ### emitter histories -/
+namespace AsmDrv
+open AsmModel Gen
+
+structure St where
+  orig : Em
+  cl : Option Em       -- the clone, while one exists
+  onClone : Bool       -- which emitter receives the operations
+
+def cur (s : St) : Em := if s.onClone then s.cl.getD s.orig else s.orig
+def setCur (s : St) (e : Em) : St := if s.onClone && s.cl.isSome then { s with cl := some e } else { s with orig := e }
+
+def capOf (w : String) : Option (Option Nat) :=
+  if w == "nil" then some none else (hexNat? w).map some
+
+def resStr : Res → String | .ok => "ok" | .refused => "refused"
+
+def kindStr : LineKind → String
+  | .ins1 => "i1" | .ins2 | .ins2Label => "i2" | .ins3 | .ins3Label => "i3" | .ins4 => "i4"
+  | .base => "base" | .db => "db" | .comment => "cm" | .label => "lb"
+
+def recStr (hex : Bool) (r : Rec) : String :=
+  let showAddr := r.kind == .base || (!hex && r.kind != .comment && r.kind != .label)
+  let addr := if showAddr then toHex r.address else ""
+  s!"{kindStr r.kind}@{addr}:" ++ String.join (r.bytes.map (fun b => hex2 (UInt8.ofNat b))) ++ ":" ++
+    (match r.kind with | .ins2Label | .ins3Label => (if hex then "" else "") | _ => r.text)
+
+def sortStrs (l : List String) : List String := (l.toArray.qsort (· < ·)).toList
+
+def query (e : Em) (names : List String) : String :=
+  let labs := names.filterMap (fun n => (lookup e.labels n).map (fun v => s!"{n}={toHex v}"))
+  s!"n={toHex e.code.length} pc={toHex e.address} fl={toHex e.flags} m16={b01 (isM16 e.flags)} x16={b01 (isX16 e.flags)} base={toHex e.base} " ++
+    "b=" ++ String.join (e.code.map (fun b => hex2 (UInt8.ofNat b))) ++ " lab=" ++ ",".intercalate (sortStrs labs)
+
+def op (s : St) (names : List String) (ws : List String) : St × String :=
+  let e := cur s
+  match ws with
+  | "I" :: mname :: rest =>
+    match asmMethods.find? (fun m => m.name == mname) with
+    | none => (s, "nomethod")
+    | some m =>
+      if m.params == [0] then
+        let r := ins e m [] (rest.headD "")
+        (setCur s r.1, resStr r.2)
+      else
+        let args := rest.filterMap hexNat?
+        let r := ins e m args ""
+        (setCur s r.1, resStr r.2)
+  | ["B", hx] =>
+    match HdrDrv.hexBytes? hx with
+    | some bs => let r := emitBytes e (bs.map (·.toNat)); (setCur s r.1, resStr r.2)
+    | none => (s, "bad-op")
+  | ["L", name] => let r := label e name; (setCur s r.1, resStr r.2 ++ (if r.2 == .ok then " " ++ toHex e.address else ""))
+  | ["C", txt] => (setCur s (comment e txt), "ok")
+  | ["S", a] => match hexNat? a with | some a => (setCur s (setBase e a), "ok") | none => (s, "bad-op")
+  | ["F"] =>
+    let r := finalize e
+    (setCur s r.1, match r.2 with | .ok => "ok" | .unresolved _ => "unresolved" | .tooFar _ _ => "toofar" | .crash => "crash")
+  | ["K", c] =>
+    match capOf c with
+    | some c => ({ s with cl := some (clone s.orig c), onClone := true }, "ok")
+    | none => (s, "bad-op")
+  | ["T", w] => ({ s with onClone := (w == "c") }, "ok")
+  | ["A"] =>
+    match s.cl with
+    | none => (s, "noclone")
+    | some c => let r := append s.orig c; ({ s with orig := r.1, onClone := false }, resStr r.2)
+  | ["Q"] => (s, query e names)
+  | ["H"] => (s, match hexRecords e with | some rs => "|".intercalate (rs.map (recStr true)) | none => "panic")
+  | ["X"] => (s, match textRecords e with | some rs => "|".intercalate (rs.map (recStr false)) | none => "panic")
+  | _ => (s, "bad-op")
+
+/-- `enc <Method> <args..>`: the bytes the name-derived specification demands, and the bytes of the regenerated row -/
+def enc (ws : List String) : String :=
+  match ws with
+  | mname :: rest =>
+    match asmMethods.find? (fun m => m.name == mname) with
+    | none => "nomethod"
+    | some m =>
+      let args := rest.filterMap hexNat?
+      let model := m.bytes.map (AsmExpect.evalB args)
+      let spec := match AsmExpect.expect m.mnemonic m.suffix (m.params == [0]) with
+        | none => "noexpect"
+        | some e => match Spec.opcodeOf e.mn e.mode with
+          | none => "noopcode"
+          | some op => String.join ((op :: AsmExpect.operandBytes e.operand args).map (fun b => hex2 (UInt8.ofNat b)))
+      spec ++ " " ++ String.join (model.map (fun b => hex2 (UInt8.ofNat b)))
+  | [] => "bad-op"
+
+def run (capW textW : String) (ops : List String) : String :=
+  match capOf capW with
+  | none => "bad-op"
+  | some c =>
+    let opsW := ops.map (fun o => (o.splitOn " ").filter (· ≠ ""))
+    -- label names mentioned anywhere in the history (for the label part of queries)
+    let names := (opsW.filterMap (fun ws => match ws with
+      | ["L", n] => some n
+      | _ => none)).eraseDups
+    let st0 : St := ⟨newEmitter c (textW == "1"), none, false⟩
+    let (_, outs) := opsW.foldl (fun (acc : St × List String) ws =>
+      if ws.isEmpty then acc else
+      let (s', r) := op acc.1 names ws
+      (s', r :: acc.2)) (st0, [])
+    ";".intercalate outs.reverse
+end AsmDrv
+
 def handle (line : String) : String :=
   let line := line.trimAscii.toString
   if line.startsWith "bus " then BusDrv.run ((line.drop 4).toString.splitOn ";") else
+  if line.startsWith "enc " then AsmDrv.enc (((line.drop 4).toString.splitOn " ").filter (· ≠ "")) else
+  if line.startsWith "asm " then
+    match (line.drop 4).toString.splitOn ";" with
+    | hd :: ops =>
+      match (hd.splitOn " ").filter (· ≠ "") with
+      | [c, t] => AsmDrv.run c t ops
+      | _ => "bad-op"
+    | [] => "bad-op"
+  else
   if line.startsWith "hdr " then HdrDrv.run (((line.drop 4).toString.splitOn " ").filter (· ≠ "")) else
   if line.startsWith "rom " then
     match (line.drop 4).toString.splitOn ";" with
